@@ -11,6 +11,12 @@ The modelled program (what harness/hx-c10 builds from the real crates):
   `fetchFn (inputs captured by that fetch)` (`complete f`);
 * optionally a subscriber `Effect` reading `d.get()`; optionally also a memo `m = memoFn sources`
   read before or after `d` (`EffKind`);
+* the fetcher is a little program (`Fetcher`, `Rd`): reads made when its future is created (`sync`: closure body
+  and the async block up to its first `await`) and reads made after the `await` of the harness's receiver
+  (`post`), each either unconditional, conditional on the flag (source 0) read earlier in the same run, or
+  indexed by it — so an input may be read for the first time in a second or later run.  `run` records what the
+  current run has read, `dSub` the sources the derived is subscribed to (it never clears its sources); a source
+  write marks the derived only if it is subscribed; the result is `fetchFn` of the values read, in order;
 * awaiter tasks (`spawn_local(async { d.await })`) attached at arbitrary points;
 * a stand-in `<Suspense/>` boundary: a child owner that provides a `SuspenseContext`; `bread` = the boundary
   reads the value synchronously under that owner (`try_read_untracked`: a task handle of its own + a spawned
@@ -30,6 +36,7 @@ The modelled program (what harness/hx-c10 builds from the real crates):
 | `init`                    | `spawn_derived!` up to `$spawner(..)` (computed/async_derived/arc_async_derived.rs): `loading = !is_ready`, initial future created and polled once with `now_or_never()` (fetch 0 starts in the constructor), `notifier.notify()`, task spawned (woken) |
 | `pollD` / `.start`        | first poll of the spawned task: `already_dirty` ⇒ `initial_fut.take()` (fetch 0 is dropped) |
 | `dIter`, `dLoop`          | one iteration / the whole of `while rx.next().await.is_some() { if update_if_necessary || first_run { .. } }`; `Receiver::poll_next` (channel.rs) = `waker.register; set.swap(false)` |
+| `Run.exec`, `postReads`   | the reactive reads of the user's fetcher: `ScopedFuture` re-installs the derived as the observer on every poll of the future, so reads before and after an `await` are tracked alike (`Track::track`: subscribe) |
 | `startFetch`              | `fut = initial_fut.take().unwrap_or_else(|| new ScopedFuture(fun()))` (the fetcher reads the sources here); `loading = true`; `version += 1`; reach `fut.await` |
 | `dNeedsRerun`             | `ArcAsyncDerivedInner::needs_rerun` (inner.rs; since "fix: a subscriber's check must not consume an async derived's Dirty state") called by the task only: `Dirty ⇒ Clean, true`; else `any` over the sources (signals: `false`; source memo: `smUpdate`) |
 | `dAsSource`               | `ReactiveNode::update_if_necessary` of the derived = the answer to a *subscriber* that has `d` among its sources (effect check phase): `false`, nothing touched |
